@@ -283,6 +283,7 @@ class Call(Ev):
         super().__init__(node, func, stack)
         self.name, self.callees, self.args, self.inlined, self.recv = name, callees, args, inlined, recv
         self.ret = None
+        self.facts = {}
 
     def __repr__(self):
         return f"call {self.name}{'*' if self.inlined else ''} @{self.loc}"
@@ -565,6 +566,8 @@ class Interp:
                 continue
             callee = callees[0]
             depth = len(fr.stack)
+            if hasattr(self.inline, "__dict__"):
+                self.inline.caller = fr.func   # the policy may depend on who calls
             if depth >= self.max_depth + 2 or not (getattr(callee, "parent", None) is not None or (depth < self.max_depth and self.inline(call, callee, depth))):
                 continue
             nxt = []
@@ -715,6 +718,14 @@ class Interp:
         extra = []
         for kw in call.keywords:
             if kw.arg is None:
+                dv = self.eval(kw.value, st, fr)
+                if isinstance(dv, DictV):
+                    for k, v, _r in dv.entries:
+                        if isinstance(k, Const) and isinstance(k.v, str):
+                            if k.v in callee.params or k.v in callee.kwonly:
+                                args[k.v] = v
+                            else:
+                                extra.append(k.v)
                 continue
             if kw.arg in callee.params or kw.arg in callee.kwonly:
                 v = self.eval(kw.value, st, fr)
@@ -726,6 +737,20 @@ class Interp:
         return args
 
     def _exec_stmt(self, s, st, fr):
+        # `x = A if C else B` / `return A if C else B` with an undecided C is the if-statement it abbreviates
+        if isinstance(s, ast.Return) and isinstance(s.value, ast.IfExp) and self.truth(s.value.test, st, fr) is None:
+            outs = []
+            for st1, truth, forked in self.branch(s.value.test, st, fr):
+                v = s.value.body if truth else s.value.orelse
+                if isinstance(s, ast.Return):
+                    s2 = ast.Return(value=v)
+                elif isinstance(s, ast.Assign):
+                    s2 = ast.Assign(targets=s.targets, value=v, type_comment=None)
+                else:
+                    s2 = ast.AugAssign(target=s.target, op=s.op, value=v)
+                ast.copy_location(s2, s)
+                outs.extend(self._exec_stmt(s2, st1, fr))
+            return outs
         if isinstance(s, ast.Expr):
             self.eval(s.value, st, fr, effects=True)
             return [(st, None)]
@@ -976,7 +1001,31 @@ class Interp:
                 del st.memo[k]
             self._drop_facts(st, attrs)
 
+    @staticmethod
+    def _chain_args(it):
+        """`itertools.chain(a, b, ...)` / `chain(a, b)` / `[*a, *b]` / `a + b` used as a loop iterable -> [a, b, ...]"""
+        if isinstance(it, ast.Call) and not it.keywords and it.args and ast.unparse(it.func) in ("itertools.chain", "chain") \
+                and not any(isinstance(a, ast.Starred) for a in it.args):
+            return list(it.args)
+        if isinstance(it, (ast.List, ast.Tuple)) and it.elts and all(isinstance(x, ast.Starred) for x in it.elts):
+            return [x.value for x in it.elts]
+        return None
+
     def exec_for(self, s, st, fr):
+        parts = self._chain_args(s.iter)
+        if parts is not None and len(parts) > 1 and not any(isinstance(n, ast.Break) for b in s.body for n in ast.walk(b)):
+            # one loop over the concatenation == the loops over the parts, one after the other (no `break` in the body)
+            outs = [(st, None)]
+            for i, part in enumerate(parts):
+                seg = ast.copy_location(ast.For(target=s.target, iter=part, body=s.body, orelse=(s.orelse if i == len(parts) - 1 else []), type_comment=None), s)
+                nxt = []
+                for st0, ex in outs:
+                    if ex is not None:
+                        nxt.append((st0, ex))
+                    else:
+                        nxt.extend(self.exec_for(seg, st0, fr))
+                outs = nxt
+            return outs
         coll = self.eval(s.iter, st, fr, effects=True)
         key = self.path_of(coll, ast.unparse(s.iter))
         if isinstance(coll, ListV):
@@ -1476,6 +1525,8 @@ class Interp:
                 k = (base.name, e.attr)
                 if k in st.heap:
                     return st.heap[k]
+                if f"{base.name}.{e.attr}" in self.collections:
+                    return ListV(self.collections[f"{base.name}.{e.attr}"], False)
                 t = self.types.field_type(base.cls, e.attr) if base.cls else None
                 if t is None and base.cls and isinstance(e.ctx, ast.Load):
                     m = self.repo.lookup_method(base.cls, e.attr)
@@ -1872,6 +1923,11 @@ class Interp:
             if fname == "set" and isinstance(inner, ListV):
                 return ListV(inner.items, True, "set")
             return Unk(f"{fname}~{next(self._fresh)}:{ast.unparse(e.args[0])[:40]}", fr.ft.type_of(e))
+        if ast.unparse(f) in ("itertools.chain", "chain") and e.args and not e.keywords:
+            parts = [self._eval_iterable(a, st, fr) for a in e.args]
+            if all(isinstance(x, ListV) for x in parts):
+                return ListV([y for x in parts for y in x.items], all(x.fresh for x in parts), "list")
+            return Unk(f"chain~{next(self._fresh)}", fr.ft.type_of(e))
         if fname in ("list", "set", "dict") and not e.args:
             return ListV([], True, fname)
         if fname == "filter" and len(e.args) == 2 and isinstance(e.args[0], ast.Lambda):
@@ -1922,6 +1978,8 @@ class Interp:
         cev = None
         if (effects or callees) and not self._quiet:
             cev = Call(cname, [c.qualname for c in callees], argvals, e, fr.func, fr.stack, False, recv)
+            if callees:
+                cev.facts = dict(st.facts)   # what is known to hold when the call is made
             st.trace.append(cev)
         if callees and self.havoc_on_call:
             # opaque in-package call: forget what it may write
@@ -2062,17 +2120,55 @@ class Interp:
                     return f"{v.cls}.{v.single()}"
                 if isinstance(n, ast.Attribute):
                     return go(n.value) + "." + n.attr
+                if isinstance(v, (Unk, Poly)) and isinstance(n, ast.Name):
+                    # a local that merely names an attribute of an abstract object (`task_name = self.name`)
+                    tag = v.tag if isinstance(v, Unk) else (repr(v) if len(v.terms) == 1 and v.is_linear() and not v.is_const() else "")
+                    root, dot, rest = tag.partition(".")
+                    if dot and rest.isidentifier() and any(k[0] == root for k in st.heap) or (dot and rest.isidentifier() and any(isinstance(x, Obj) and x.name == root for x in st.env.values())):
+                        return "<" + root + ">." + rest
                 return n.id
             if isinstance(n, ast.Call):
                 args = [go(a) for a in n.args] + [f"{kw.arg}={go(kw.value)}" for kw in sorted(n.keywords, key=lambda k: k.arg or "")]
                 f = n.func
                 fn = (go(f.value) + "." + f.attr) if isinstance(f, ast.Attribute) else ast.unparse(f)
+                if isinstance(f, ast.Name) and isinstance(st.env.get(f.id), BoundV) and st.env[f.id].func is not None:
+                    bv = st.env[f.id]   # local alias of a bound method: the predicate is the method's
+                    fn = "<" + bv.recv.name + ">." + bv.func.name
                 return fn + "(" + ", ".join(args) + ")"
             if isinstance(n, ast.Constant):
                 return repr(n.value)
             if isinstance(n, ast.Compare) and len(n.ops) == 1:
                 return go(n.left) + " " + type(n.ops[0]).__name__ + " " + go(n.comparators[0])
-            return ast.unparse(n)
+            # anything else (comprehensions, boolean operators ...): the source text with every name / attribute chain that
+            # denotes an abstract object replaced by the object's access path
+            bound = {x.id for c in ast.walk(n) if isinstance(c, ast.comprehension) for x in ast.walk(c.target) if isinstance(x, ast.Name)}
+            bound |= {a.arg for c in ast.walk(n) if isinstance(c, ast.Lambda) for a in c.args.args}
+            interp = self
+
+            class T(ast.NodeTransformer):
+                def visit_Name(self, x):
+                    if x.id in bound or not isinstance(x.ctx, ast.Load):
+                        return x
+                    v = st.env.get(x.id)
+                    if isinstance(v, Obj):
+                        return ast.copy_location(ast.Name(id="<" + v.name + ">", ctx=ast.Load()), x)
+                    return x
+
+                def visit_Attribute(self, x):
+                    root = x
+                    while isinstance(root, ast.Attribute):
+                        root = root.value
+                    if isinstance(root, ast.Name) and root.id not in bound and isinstance(x.ctx, ast.Load):
+                        interp._quiet += 1
+                        try:
+                            v = interp.eval(x, st, fr)
+                        finally:
+                            interp._quiet -= 1
+                        if isinstance(v, Obj):
+                            return ast.copy_location(ast.Name(id="<" + v.name + ">", ctx=ast.Load()), x)
+                    return self.generic_visit(x)
+            import copy
+            return ast.unparse(T().visit(copy.deepcopy(n)))
         return go(e)
 
     def pred_reads(self, e, fr):
@@ -2083,7 +2179,7 @@ class Interp:
             if isinstance(n, ast.Attribute) and isinstance(n.ctx, ast.Load):
                 attrs.add(n.attr)
             if isinstance(n, ast.Call):
-                callees, _res = fr.ft.resolve_call(n)
+                callees, _res = fr.ft.resolve_call(n)   # (local aliases of bound methods are resolved statically, too)
                 for c in callees:
                     for g in self.eff.reachable([c], precise=False):
                         for ef in self.eff.of(g):
